@@ -609,6 +609,11 @@ func (x *yhCase) runWrite2(q *yhReq, con int) error {
 		return fmt.Errorf("lock: %w", err)
 	}
 	defer proto2.RPCUnlock(tr)
+	return x.write2On(q, tr, ct, locked)
+}
+
+// write2On sends the RHP2 write of q inside the locked session tr
+func (x *yhCase) write2On(q *yhReq, tr *crhp2.Transport, ct *c10Contract, locked crhp2.ContractRevision) error {
 	req := &crhp2.RPCWriteRequest{Actions: x.actions2(q), MerkleProof: false, RevisionNumber: q.prop.rn, ValidProofValues: q.prop.valid(), MissedProofValues: q.prop.missed()}
 	if err := tr.WriteRequest(crhp2.RPCWriteID, req); err != nil {
 		return err
